@@ -37,7 +37,6 @@ THEOREMS = ["Cog.Builder." + t for t in [
     "C17_derived_WT", "C17_end_to_end", "C17_derived_option_fresh", "C17_array_to_append_preserves_fresh",
     "C17_map_to_index_preserves_fresh", "C17_unfold_boolean_preserves_fresh",
 ]]
-PROPOSED = os.path.join(WORK, "proposed_findings_C17.json")
 WITNESSES = ["dup-option-default", "dup-builder-default", "dismissed", "rename-args-constraint",
              "promote-array-to-append", "merge-rename-arguments", "map-index-unfold", "sf-opts-after-append", "add-assignment-array-to-append", "map-index-promote"]
 GO_ONLY_PINNED = ["compose-then-initialize"]
@@ -59,9 +58,6 @@ def case_of(rp):
 
 def main():
     c = Check("C17")
-    if os.path.exists(PROPOSED):  # proposed entries, until merged into known_findings.json
-        have = {f["id"] for f in c.known}
-        c.known += [f for f in json.load(open(PROPOSED)).get("findings", []) if f.get("property") == "C17" and f["id"] not in have]
     c.trusted = [
         "Lean 4.33 kernel; axioms per theorem are listed in obligation_list (subset of propext, Classical.choice, Quot.sound)",
         "hand-written model lean/Cog/Builder/Veneers.lean of internal/veneers/{builder,option,rewrite} + internal/yaml veneer glue + internal/veneers/types.go, tied by the c17-veneer correspondence stream: generated rule files are loaded THROUGH yaml.VeneersLoader and applied by rewrite.Rewriter.ApplyTo; the model gets the same files as decoded by yaml.v3 into yaml.Veneers (second decode, same settings)",
